@@ -19,12 +19,16 @@ def initial : St := ⟨DEFAULT_DECIMAL_WIDTH, DEFAULT_DECIMAL_SCALE⟩
     `env` = the integer value of an environment variable when it is set.  Returns the globals after the call
     (also after a failing one: the assignments happen before the checks) and the raised error, if any. -/
 def setDecimalConfig (env : String → Option Int) (g : St) : St × Option ConfigError :=
-  let g : St := { g with w := (env DECIMAL_WIDTH_ENV_VAR).getD g.w }
-  let g : St := { g with s := (env DECIMAL_SCALE_ENV_VAR).getD g.s }
-  let g : St := if (g.w = DISABLE_VALUE) then { g with w := MAX_DECIMAL_WIDTH } else g
-  let g : St := if (g.s = DISABLE_VALUE) then { g with s := MAX_DECIMAL_SCALE } else g
-  if ((g.s < MIN_DECIMAL_SCALE) ∨ (g.s > MAX_DECIMAL_SCALE)) then (g, some ⟨"0-4-1-1", DECIMAL_SCALE_ENV_VAR, g.s, MIN_DECIMAL_SCALE, MAX_DECIMAL_SCALE, DISABLE_VALUE⟩) else
-  if ((g.w < MIN_DECIMAL_WIDTH) ∨ (g.s > MAX_DECIMAL_WIDTH)) then (g, some ⟨"0-4-1-1", DECIMAL_WIDTH_ENV_VAR, g.w, MIN_DECIMAL_WIDTH, MAX_DECIMAL_WIDTH, DISABLE_VALUE⟩) else
+  let l_width : Int := (env DECIMAL_WIDTH_ENV_VAR).getD DEFAULT_DECIMAL_WIDTH
+  let l_scale : Int := (env DECIMAL_SCALE_ENV_VAR).getD DEFAULT_DECIMAL_SCALE
+  let l_width : Int := if (l_width = DISABLE_VALUE) then MAX_DECIMAL_WIDTH else l_width
+  let l_scale : Int := if (l_scale = DISABLE_VALUE) then MAX_DECIMAL_SCALE else l_scale
+  if ((l_scale < MIN_DECIMAL_SCALE) ∨ (l_scale > MAX_DECIMAL_SCALE)) then (g, some ⟨"0-4-1-1", DECIMAL_SCALE_ENV_VAR, l_scale, MIN_DECIMAL_SCALE, MAX_DECIMAL_SCALE, DISABLE_VALUE⟩) else
+  if ((l_width < MIN_DECIMAL_WIDTH) ∨ (l_width > MAX_DECIMAL_WIDTH)) then (g, some ⟨"0-4-1-1", DECIMAL_WIDTH_ENV_VAR, l_width, MIN_DECIMAL_WIDTH, MAX_DECIMAL_WIDTH, DISABLE_VALUE⟩) else
+  let t_121_0 : Int := l_width
+  let t_121_1 : Int := l_scale
+  let g : St := { g with w := t_121_0 }
+  let g : St := { g with s := t_121_1 }
   (g, none)
 
 /-- `get_decimal_type` -/
